@@ -50,6 +50,76 @@ def verify(rec):
     return guid, ok, (producer[0] if producer else "no known key")
 
 
+def attest_route(chk, binp):
+    """the fifth signing route: the key keeper's own attestation request, and what it latches. The real key keeper acquires
+    keys from the mock host; the id it announces (on the attestation, and afterwards on proxied requests) must be the id the
+    host issued together with the key that made the MAC"""
+    import os
+    import keeper
+    stack = e2e.Stack(binp)
+    try:
+        callers = pipe.Callers(stack)
+        for ep in ("ws", "imds", "hostga"):
+            stack.ctl(f"rules {ep} none")
+        kp = keeper.Keeper(None, sd=stack.sd, attach=stack, interval_ms=15)
+
+        def doc(guid):
+            return {"version": "1.0", "secureChannelState": "Wireserver", "keyGuid": guid}
+
+        def attests(since):
+            out = []
+            for c in kp.calls[since:]:
+                if c[0] == "attest":
+                    req = c[3]
+                    out.append({"method": req["method"].encode(), "target": req["target"].encode("latin-1"), "headers": req["headers"],
+                                "body": req["body"], "start": (req["method"] + " " + req["target"]).encode("latin-1")})
+            return out
+        steps = [
+            ("first latch", doc(None), K1, None),
+            # the host names a key the guest has no file for: the guest asks again and the host hands out yet another key
+            ("the host names a key the guest does not have and issues another", doc(K3), K2, None),
+            ("rotation announced by the host", doc(None), K3, None),
+            ("steady state", "latched", None, None),
+        ]
+        latched = None
+        for what, d, newkey, remove in steps:
+            if remove:
+                try:
+                    os.remove(os.path.join(kp.key_dir, remove + ".key"))
+                except OSError:
+                    pass
+            if d == "latched":
+                d = doc(latched)
+            plan = {"status": {"kind": "doc", "doc": d}, "attest": {"kind": "ok"}}
+            if newkey:
+                plan["acquire"] = {"kind": "key", "guid": newkey, "key": KEYS[newkey]}
+            n0 = len(kp.calls)
+            stt = kp.step(plan, kick=True)
+            chk.case(nontrivial_key=("attest-route", what))
+            if stt is None:
+                chk.broken.append({"kind": "harness", "name": "attest-route", "why": "no next poll after: " + what})
+                break
+            for r in attests(n0):
+                g, okmac, prod = verify(r)
+                chk.count("attest_requests")
+                latched = newkey
+                if g is None or not okmac:
+                    chk.violation("the attestation request announces a key id that did not produce its MAC", {"step": what, "announced": g, "mac_made_with": prod,
+                                                                                                          "host_issued": newkey})
+                elif g != newkey:
+                    chk.violation("the attestation request announces another key id than the host issued with this key", {"step": what}, expected=newkey, observed=g)
+            # what the agent now signs proxied requests with
+            recs = do_sign(stack, callers, "proxy", "att" + what[:3])
+            for r in recs:
+                g, okmac, prod = verify(r)
+                if g is not None and not okmac:
+                    chk.violation("authorization header announces a key id that did not produce the MAC",
+                                  {"route": "proxy, after key keeper step: " + what, "announced": g, "mac_made_with": prod})
+        kp.close()
+    finally:
+        stack.close()
+
+
 def set_key(stack, guid):
     if guid is None:
         stack.ctl("key none")
@@ -164,6 +234,7 @@ def run(chk):
         chk.sample({"routes": ROUTES, "placements": placements, "keys": list(KEYS)})
     finally:
         stack.close()
+    attest_route(chk, binp)
     if chk.counts.get("signed", 0) == 0:
         chk.broken.append({"kind": "gate", "name": "generator sanity", "why": "no signed request observed in the placed schedules"})
     chk.coverage["rule"] = ("4 signing routes (proxied request, get_goalstate, get_shared_config, get_imds_instance_info): the H3 message trace of "
